@@ -252,6 +252,8 @@ ShapeOK(T, exh) == /\ WellFormed(T) /\ WidthIsSum(T) /\ LayoutPartition(T) /\ Fi
 \*
 \* Actions (records; JSON objects of the same form):
 \*   [op |-> "frombits",  d, b]        d := T.from_bits(b)           (new object)
+\*   [op |-> "default",   d]           d := T()                      (new object, every leaf 0; default
+\*                                     construction builds fresh leaf / list / nested objects each time)
 \*   [op |-> "assign",    d, s]        d @= s
 \*   [op |-> "assignbits",d, b]        d @= BitsN(b)                 (goes through from_bits)
 \*   [op |-> "nbassign",  d, s]        d <<= s
@@ -270,6 +272,7 @@ OkLeafPath(T, path) == LET ip == IpOf(T, path) IN ip # <<0>> /\ ShapeAt(T, ip).k
 
 Enabled(T, st, a) ==
     CASE a.op \in {"frombits", "assignbits", "nbassignbits"} -> IsBits(a.b, NBits(T))
+      [] a.op = "default" -> TRUE
       [] a.op \in {"assign", "nbassign", "clone", "deepcopy"} -> a.s \in DOMAIN st /\ a.d \in DOMAIN st
       [] a.op = "flip"   -> a.d \in DOMAIN st /\ st[a.d].pend
       [] a.op = "mutate" -> /\ a.d \in DOMAIN st /\ OkLeafPath(T, a.path)
@@ -279,6 +282,7 @@ Enabled(T, st, a) ==
 
 Step(T, st, a) ==
     CASE a.op = "frombits"     -> [st EXCEPT ![a.d] = Obj(Unpack(T, a.b))]
+      [] a.op = "default"      -> [st EXCEPT ![a.d] = Obj(Zero(T))]
       [] a.op = "assign"       -> [st EXCEPT ![a.d] = WithCur(@, st[a.s].cur)]
       [] a.op = "assignbits"   -> [st EXCEPT ![a.d] = WithCur(@, Unpack(T, a.b))]
       [] a.op = "nbassign"     -> [st EXCEPT ![a.d] = WithNxt(@, st[a.s].cur)]
@@ -311,6 +315,7 @@ Actions ==
     {a \in {[op |-> o, d |-> d, s |-> s] : o \in {"assign", "nbassign", "clone", "deepcopy"},
                                             d \in Names, s \in Names} : a.d # a.s}
     \cup {[op |-> "flip", d |-> d] : d \in Names}
+    \cup {[op |-> "default", d |-> d] : d \in Names}
     \cup {[op |-> o, d |-> d, b |-> b] : o \in {"assignbits", "nbassignbits", "frombits"}, d \in Names,
                                            b \in {AltBits(NBits(Shape), 0), [i \in 1 .. NBits(Shape) |-> 1]}}
     \cup UNION {{[op |-> "mutate", d |-> d, path |-> p, kind |-> kd, x |-> x] :
